@@ -217,6 +217,8 @@ def check_ds(recipe, src_root):
         if exp:
             la, lb = label[a], label[b]
             label = [la if x == lb else x for x in label]
+        if recipe.get("lazy"):
+            continue  # no query between the unions: the structure is only inspected at the end (deep parent chains survive)
         classes = {}
         for i, l in enumerate(label):
             classes.setdefault(l, []).append(i)
@@ -243,6 +245,16 @@ def check_ds(recipe, src_root):
             want.append(sorted([a, b]))
     if sorted(got) != sorted(want):
         return f"binary() returned {len(got)} coarsenings ({len(set(map(str, got)))} distinct), expected {len(want)}"
+    # the partition itself is reported as before, also after binary() was called on it
+    if sorted(sorted(g) for g in ds.to_list()) != blocks or len(ds) != len(blocks):
+        return f"after binary() the partition reads {ds.to_list()} (len {len(ds)}), the unions generate {blocks}"
+    for i in range(n):
+        for j in range(n):
+            if (ds.find(i) == ds.find(j)) != (label[i] == label[j]):
+                return f"find({i}) == find({j}) disagrees with the generated partition"
+    again = [sorted(sorted(g) for g in b.to_list()) for b in ds.binary()]
+    if sorted(again) != sorted(want):
+        return f"a second binary() returned {len(again)} coarsenings, expected {len(want)}"
     return None
 
 
@@ -266,11 +278,13 @@ def ds_standin():
                     break
             if viol:
                 break
-        for it in range(600 if tier != "thorough" else 6000):
+        for it in range(3000 if tier != "thorough" else 30000):
             if viol:
                 break
             m = rng.randrange(1, 9) if it % 3 else rng.randrange(9, 13)
             r = {"n": m, "unions": [[rng.randrange(m), rng.randrange(m)] for _ in range(rng.randrange(0, 8 if it % 3 else 12))]}
+            if it % 2:
+                r["lazy"] = True
             evals += 1
             seen.add(repr(r))
             if len(samples) < 3:
@@ -278,8 +292,29 @@ def ds_standin():
             w = check_ds(r, src_root)
             if w:
                 viol.append((w, r))
+        # tournament histories (pairs, pairs of pairs, ...) without any query in between: the deepest parent chains union by rank can build
+        for it in range(300 if tier != "thorough" else 3000):
+            if viol:
+                break
+            m = rng.choice([8, 8, 16])
+            blocks = [[i] for i in range(m)]
+            rng.shuffle(blocks)
+            unions = []
+            while len(blocks) > 1:
+                nxt = []
+                for a, b in zip(blocks[0::2], blocks[1::2]):
+                    x, y = rng.choice(a), rng.choice(b)
+                    unions.append([x, y] if rng.random() < 0.5 else [y, x])
+                    nxt.append(a + b)
+                blocks = nxt
+            r = {"n": m, "unions": unions, "lazy": True}
+            evals += 1
+            seen.add(repr(r))
+            w = check_ds(r, src_root)
+            if w:
+                viol.append((w, r))
         return dict(evaluations=evals, distinct_nontrivial=len(seen), violations=viol, samples=samples,
-                    rule="all union histories of length <= 2 (3 thorough) on 5 elements and random histories <= 11 on <= 12 elements, against a naive relabelling partition: unite result, len, to_list, find-equivalence after every step, binary() = each two-block coarsening once")
+                    rule="all union histories of length <= 2 (3 thorough) on 5 elements and random histories <= 11 on <= 12 elements (half of them without any query between the unions) and tournament histories on 8 / 16 elements, against a naive relabelling partition: unite result, len, to_list, find-equivalence after every step, binary() = each two-block coarsening once")
 
     sd = Standin("disjoint_set:partition-and-coarsenings", run, describe="bounded: histories <= 2/3 on 5 elements + random")
     sd.replay = check_ds
